@@ -405,6 +405,9 @@ fn strategy() -> BoxedStrategy<Case> {
     let size = prop_oneof![
         3 => 1usize..=30,
         4 => 160usize..=182,
+        // around 2^7 and 2^8 (limits of exact integer arithmetic, index widths)
+        2 => 120usize..=140,
+        2 => 250usize..=262,
         3 => 1usize..=441,
         1 => Just(441usize),
         1 => 400usize..=441,
